@@ -20,7 +20,7 @@ func init() {
 
 func r07_1(c *Ctx, r *Report) {
 	const rule = "R07.1"
-	r.rule(rule, "Who may build. Every store to a field of a library struct is made (a) by the activation that allocated the object, (b) by an unexported builder through a parameter that at every call site is such a freshly allocated object (compute*, LunarYear.compute, Yun.computeStart — by behaviour, not by name, transitively), or (c) by a documented Set* mutator on its own receiver; with R09.3 (no entry point writes to pre-existing memory) this reduces 'no sequence of calls yields an invalid object' to the constructors' own checks.")
+	r.rule(rule, "Who may build. Every store to a field of a library struct is made (a) by the activation that allocated the object, (b) by an unexported builder through a parameter that at every call site is such a freshly allocated object (compute*, LunarYear.compute, Yun.computeStart — by behaviour, not by name, transitively), (c) by a documented Set* mutator on its own receiver, or (d) into the hour, minute or second of a civil date that a callee has just built and handed back (every return of that callee is, transitively, its own allocation), with a value the interval analysis proves inside that field's range; with R09.3 (no entry point writes to pre-existing memory) this reduces 'no sequence of calls yields an invalid object' to the constructors' own checks.")
 	writers := map[string]map[string]bool{}
 	outside := map[string]map[string]string{}
 	for _, fn := range c.Funcs {
@@ -58,6 +58,16 @@ func r07_1(c *Ctx, r *Report) {
 				default:
 					if !(isDocumentedMutator(fn) && structName(fn.Signature.Recv().Type()) == typ) {
 						why = "stores through a pointer that is neither its own allocation nor a parameter under construction"
+						// (d) a time-of-day field of an object a callee has just built and handed back (every return of that
+						// callee, transitively, is its own allocation), set to a value proven inside the field's own range:
+						// the object is this activation's to finish, and the field is validated on its own
+						if rng, ranged := independentFieldRange[fieldKeyOf(fa)]; ranged {
+							if call, isCall := rootAlloc(fa.X).(*ssa.Call); isCall && returnsFresh(call, 0) {
+								if v := c.ranges().obsAt(fn, st, st.Val); !v.bot && v.known() && v.lo() >= rng[0] && v.hi() <= rng[1] {
+									why = ""
+								}
+							}
+						}
 					}
 				}
 				if why != "" {
@@ -81,6 +91,9 @@ func r07_1(c *Ctx, r *Report) {
 	}
 	r.floor(rule, 18)
 }
+
+// independentFieldRange: the fields of a civil date whose validity does not depend on the other fields.
+var independentFieldRange = map[string][2]int64{"Solar.hour": {0, 23}, "Solar.minute": {0, 59}, "Solar.second": {0, 59}}
 
 func r07_2(c *Ctx, r *Report) {
 	const rule = "R07.2"
